@@ -270,9 +270,19 @@ class C13:
                     "wscript 2 0|d={\"a\":98,\"b\":9}\nwriter 3 shape=TSBool\nwscript 3 2|d=true;;4|d=false\n"
                     "swsel 40 c=3 a=1 b=2 br=direct\ncons 41 40\n")
 
+    F15_SCENARIO = ("mode higher_order\nwindow 0 8\nwriter 1 shape=TSS\nwscript 1 2|d={\"added\":[],\"removed\":[]}\nwriter 2 shape=TSS\n"
+                    "wscript 2 6|d={\"added\":[1],\"removed\":[]}\nwriter 3 shape=TSBool\nwscript 3 0|d=false;;1|d=true\n"
+                    "ite 10 c=3 a=1 b=2\ncons 11 10\nswsel 40 c=3 a=1 b=2 br=direct\ncons 41 40\n")
+
     def demonstrate_known(self, k):
         """F14 makes every later reading of a bundle selected by switch_ meaningless, so that combination is not generated;
         the finding is re-demonstrated on every run by one fixed scenario instead (and silently disappears once repaired)."""
+        if k["id"] == F15:
+            # A ticks at t=2 with an empty delta: the if_then_else consumer (11) is evaluated, the switch consumer (41) is not
+            res = runner.run(self.F15_SCENARIO, san=self.san)
+            t11 = [e["t"] for e in res.events if e["k"] == "C" and e["id"] == 11 and e["i"] is not None]
+            t41 = [e["t"] for e in res.events if e["k"] == "C" and e["id"] == 41 and e["i"] is not None]
+            return 2 in t11 and 2 not in t41
         if k["id"] != F14:
             return False
         res = runner.run(self.F14_SCENARIO, san=self.san)
